@@ -9,7 +9,6 @@ VERIF = os.path.dirname(os.path.dirname(os.path.abspath(__file__)))
 sys.path.insert(0, VERIF)
 
 NA = {
-    "C15": "Ranges: element count and progression are arithmetic on runtime operands (to-from, division by the step, +1); no sound static rule in reach - the only code-shape facts (token->kernel routing, registry completeness) are covered by the suite and by C06. See DESIGN.md section 5.",
     "C18": "Table joins: one data-dependent routine computes row pairing, multiplicities and optional-kind promotion from runtime table contents (a relation between multisets); no structural clause that is a necessary condition without matching a source fragment. See DESIGN.md section 5.",
 }
 NOT_BUILT = "check not built yet (see DESIGN.md section 4 for the planned rules)"
